@@ -687,8 +687,8 @@ def run_registry(ctx):
     m = Model(ctx)
     define_registry(m, cs0)
     m.send("base", "ok")
-    K = ctx.pick(4, 24)
-    nfull = ctx.pick(1, 6)
+    K = ctx.pick(4, 36)
+    nfull = ctx.pick(1, 8)
     with common.scratch_dir("c17-") as scratch:
         # defaults only, every style
         roundtrip_case(ctx, m, ref, base_defaults, [], ("short", "medium", "full"), [], "defaults#0")
@@ -699,7 +699,8 @@ def run_registry(ctx):
             cands = candidates(n, ref[n], rng, K)
             ctx.count("candidate values", len(cands))
             for i, raw in enumerate(cands):
-                styles = ("short", "medium", "full") if i < nfull else ("short", "medium")
+                falsy = raw is None or (isinstance(raw, (int, float, str, list, dict)) and not raw)
+                styles = ("short", "medium", "full") if (i < nfull or falsy) else ("short", "medium")
                 user = rng.sample(names, rng.randint(0, 6))
                 if n == "userPlugins":
                     via = False
@@ -711,7 +712,7 @@ def run_registry(ctx):
                 m.flush("Settings model vs registry round trips")
                 m = _renew(ctx, m, cs0)
         # several settings at once
-        for t in range(ctx.pick(25, 400)):
+        for t in range(ctx.pick(25, 900)):
             chosen = rng.sample(names, rng.randint(2, 12))
             assigns = []
             for n in chosen:
